@@ -460,6 +460,18 @@ func Build(L Layout, base [][]Item, rev2page1 []Item, rev3page []Item) ([]byte, 
 		}
 		all = append(all, root)
 	}
+	if L.Count == "uneven" && L.Revs < 3 && len(leaves) >= 2 && root != level1[0] && (L.MediaAt == 0 || L.MediaAt == root.level) && (L.ResAt == 0 || L.ResAt == root.level) {
+		// the last page hangs directly under the root while the others sit deeper: leaves at different depths, a deeper one
+		// before a shallower one in document order
+		last := leaves[len(leaves)-1]
+		a := level1[0]
+		a.kids = a.kids[:len(a.kids)-1]
+		for q := a; q != nil && q != root; q = q.up {
+			q.count--
+		}
+		root.kids = append(root.kids, last.n.id)
+		last.parent = root.n
+	}
 	render := func(p *pnode, rev int) pdfw.Dict {
 		kids := pdfw.Arr{}
 		for _, k := range p.kids {
